@@ -1,0 +1,55 @@
+//go:build verif
+
+package mod
+
+// Contracts checked by /verif (govc). Comment-only file; not part of normal builds.
+
+// ---- C13: image modification writes only to the target and describes what it wrote ----
+// Frame ("the source image and its tag are not altered unless named as the target"): every
+// registry/layout write issued anywhere in package mod - blob push, blob copy, manifest push -
+// goes to the target reference's repository, blob copies read from the source; nothing is deleted.
+//@ callsite (*~.RegClient).BlobPut(ctx, r, d, rdr)
+//@   prop C13
+//@   name BlobPut/mod
+//@   in ~/mod
+//@   requires writes-go-to-the-target: r == caller.rTgt
+//@ callsite (*~.RegClient).BlobCopy(ctx, refSrc, refTgt, d, opts)
+//@   prop C13
+//@   name BlobCopy/mod
+//@   in ~/mod
+//@   requires from-source-to-target: refSrc == caller.rSrc && refTgt == caller.rTgt
+//@ callsite (*~.RegClient).ManifestPut(ctx, r, m, opts)
+//@   prop C13
+//@   name ManifestPut/mod
+//@   in ~/mod
+//@   requires writes-go-to-the-target: r.Scheme == caller.rTgt.Scheme && r.Registry == caller.rTgt.Registry && r.Repository == caller.rTgt.Repository && r.Path == caller.rTgt.Path
+//@ callsite (*~.RegClient).{ManifestDelete,TagDelete,BlobDelete,ImageCopy}
+//@   prop C13
+//@   name no-other-writes/mod
+//@   in ~/mod
+//@   requires never-called-from-mod: false
+
+// Inline data describes the descriptor it sits in: the bytes embedded into an index entry are the
+// raw body of THAT child manifest; the bytes embedded into a layer or config descriptor are read
+// back from the target under that very descriptor.
+//@ callsite (~/types/manifest.Manifest).RawBody()
+//@   prop C13
+//@   name RawBody/dagPut
+//@   in ~/mod
+//@   infunc mod\.dagPut$
+//@   requires data-of-the-described-child: recv == caller.child.m
+//@ callsite (*~.RegClient).BlobGet(ctx, r, d)
+//@   prop C13
+//@   name BlobGet/dagPut
+//@   in ~/mod
+//@   infunc mod\.dagPut$
+//@   requires read-back-from-the-target: r == caller.rTgt
+//   (d__2: the layer descriptor being written in the image branch of dagPut)
+//@   requires under-the-described-descriptor: d == caller.d__2 || d == caller.ociM.Config
+// The config blob pushed is the serialisation the recorded descriptor was taken from.
+//@ callsite (*~.RegClient).BlobPut(ctx, r, d, rdr)
+//@   prop C13
+//@   name BlobPut/config
+//@   in ~/mod
+//@   infunc mod\.dagPut$
+//@   requires config-descriptor-of-the-pushed-bytes: d == caller.dm.config.newDesc && $view($unbox(rdr, *bytes.Reader)) == caller.cBytes
